@@ -10,6 +10,7 @@ mod img;
 mod migr;
 mod mutimg;
 mod partition;
+mod race;
 mod seq;
 mod util;
 
@@ -30,6 +31,8 @@ fn main() {
         "migrate" => migr::run(&opts),
         "cache" => cachem::run(&opts),
         "conc" => conc::run(&opts),
+        "race" => race::run(&opts),
+        "racechild" => race::racechild(&opts),
         "seq" => seq::run(&opts),
         "tracegen" => crash::tracegen(&opts),
         "crash" => crash::run(&opts),
